@@ -25,6 +25,17 @@ def main():
             if rc != 0 or got != want:
                 lab = 'buildClassTable.vtable_entries_point_to_live_methods' if rc < 0 or rc > 1 else 'buildClassTable.vtable_entry_is_the_classes_own_method'
                 fails += 1; print('FAIL label=%s program=%s detail=%d virtual overloads of f, overridden %s: exit %s, printed %s, expected %s' % (lab, json.dumps(src), k, list(over), rc, got[:8], want))
+    # an override whose virtual original is declared further up than the direct base, reached through this.f() in the top class
+    for mid in (False,):
+        src = ('class A { public constructor() -> A = default; public virtual function f() -> int { return 1; } public function viaThis() -> int { return this.f(); } }\n'
+               'class B extends A { public constructor() -> B { super(); return this; }%s }\n' % (' public override function f() -> int { return 2; }' if mid else '') +
+               'class C extends B { public constructor() -> C { super(); return this; } public override function f() -> int { return 3; } }\n'
+               'function main() -> void { A x = new C(); echo(x.f()); echo(x.viaThis()); A y = new B(); echo(y.viaThis()); }\n')
+        want = ['3', '3', '2' if mid else '1']
+        rc, out = run(bloch, src); n += 1
+        got = [l.strip() for l in out.strip().split('\n') if l.strip()]
+        if rc != 0 or got != want:
+            fails += 1; print('FAIL label=buildClassTable.every_virtual_or_override_method_gets_its_entry program=%s detail=three-level hierarchy, middle class %s f: exit %s, printed %s, expected %s' % (json.dumps(src), 'overrides' if mid else 'does not declare', rc, got, want))
     print(json.dumps(dict(oracle_checks=n, oracle_failures=fails)))
     sys.exit(1 if fails else 0)
 main()
